@@ -7,7 +7,9 @@ Python's doubles bit for bit):
   **as coded**: it returns `(x, a)`), `proj_segment` (distance to the line, inclusion test with the
   eight comparisons, recomputation of the foot, nearest end otherwise), `proj_polyligne`
   (near-zero-length segments skipped, strict `<` minimum, `UnboundLocalError` when nothing is kept);
-* `tracklib/algo/mapping.py`   `__projOnTrack`, `mapOnTrack` (both branches).
+* `tracklib/algo/mapping.py`   `__projOnTrack`, `mapOnTrack` (both branches);
+* second half of the file: the same functions with their argument forms (lists / numpy arrays, two sequences
+  of unequal lengths) and on 3D positions (`Track.getX()/getY()`, `ENUCoords(xproj, yproj, 0)`).
 
 Scalar-polymorphic (core Lean only): `Float` in the driver, an ordered field in the theorems.
 `sqrt` is a parameter (`math.sqrt`). Python's `ZeroDivisionError` (float division by `±0.0`) and
@@ -146,6 +148,128 @@ def mapOnTrackAll (sqrt : α → α) (eps : α) (pts : List (α × α)) :
       match mapOnTrackAll sqrt eps pts qs with
       | .error e => .error e
       | .ok rs => .ok (r :: rs)
+
+end
+/-! ## Front ends and argument forms (added next to the kernel above; nothing above is changed)
+
+* `footG / projectionDroiteG / projSegmentG np`: the same three functions with the argument form as a
+  parameter. `np = false`: the segment coordinates are Python floats / ints (`list`, `tuple`): `-c / b` raises
+  `ZeroDivisionError` when `b == 0` (this is `foot / projection_droite / proj_segment` above, see
+  `Props/C20.lean` `projSegmentG_lists`). `np = true`: they are numpy scalars (`numpy.ndarray` arguments):
+  `-c / b` is then an IEEE division that never raises (it yields `±inf` / `nan` and a `RuntimeWarning`);
+  every other division of the function has a Python `float` divisor (`math.sqrt` returns one) and raises as before.
+* `polyLoopXY / projPolyligneXY`: `proj_polyligne(Xp, Yp, x, y)` with its two **separate** sequences as it
+  receives them: `range(len(Xp) - 1)` drives the loop, `Yp[i]`, `Yp[i + 1]` are read before the zero-length
+  test, a shorter `Yp` raises `IndexError`, a longer one is silently ignored.
+* `getXs / getYs`: `Track.getX()` / `Track.getY()` on a list of 3D positions `(X, Y, Z)` (`ENUCoords(E, N, U)`,
+  `GeoCoords(lon, lat, hgt)`, `ECEFCoords(X, Y, Z)`: only `getX()`, `getY()` are read by the projection).
+* `projOnTrack3`: `__projOnTrack(point, track)` on 3D positions: the altitude of the query and of the track are
+  never read, the returned coordinate is `ENUCoords(xproj, yproj, 0)`, the distance is the planimetric one.
+* `mapOnTrack3`: `mapOnTrack(coord_or_track, track)` with its dispatch on the type of the first argument. -/
+
+/-- errors of the front ends: those of the kernel plus Python's `IndexError` -/
+inductive ErrX where
+  | base (e : Err)
+  | index
+  deriving DecidableEq, Repr
+
+section
+variable {α : Type} [Add α] [Sub α] [Mul α] [Div α] [Neg α] [LT α] [LE α]
+  [DecidableLT α] [DecidableLE α] [OfNat α 0]
+
+/-- the foot computation for both argument forms (`np`: numpy scalars, `-c / b` never raises) -/
+def footG (np : Bool) (sqrt : α → α) (a b c x y : α) : Except Err (α × α) :=
+  let xv := -b
+  let yv := a
+  let norm := sqrt (xv * xv + yv * yv)
+  let xb : α := 0
+  if (!np && isZero b) then .error .zerodiv else
+  let yb := -c / b
+  if isZero norm then .error .zerodiv else
+  let bh := ((x - xb) * xv + (y - yb) * yv) / norm
+  let xproj := xb + bh * xv / norm
+  let yproj := yb + bh * yv / norm
+  .ok (xproj, yproj)
+
+/-- `projection_droite` for both argument forms -/
+def projectionDroiteG (np : Bool) (sqrt : α → α) (a b c x y : α) : Except Err (α × α) :=
+  if isZero b then .ok (x, a) else footG np sqrt a b c x y
+
+/-- `proj_segment(segment, x, y)` for both argument forms of `segment` -/
+def projSegmentG (np : Bool) (sqrt : α → α) (x1 y1 x2 y2 x y : α) : Except Err (α × α × α) :=
+  let param := cartesienne x1 y1 x2 y2
+  let a := param.1
+  let b := param.2.1
+  let c := param.2.2
+  let n := sqrt (a * a + b * b)
+  if isZero n then .error .zerodiv else
+  let distance := fabs (a * x + b * y + c) / n
+  match projectionDroiteG np sqrt a b c x y with
+  | .error e => .error e
+  | .ok pr =>
+    if included x1 y1 x2 y2 pr.1 pr.2 then
+      match footG np sqrt a b c x y with
+      | .error e => .error e
+      | .ok p => .ok (distance, p.1, p.2)
+    else
+      .ok (nearestEnd sqrt x1 y1 x2 y2 x y)
+
+/-- the loop of `proj_polyligne(Xp, Yp, x, y)` on its two sequences, from index `i` on -/
+def polyLoopXY (np : Bool) (sqrt : α → α) (eps x y : α) :
+    List α → List α → Nat → Option (α × α × α × Nat) → Except ErrX (Option (α × α × α × Nat))
+  | [], _, _, cur => .ok cur
+  | [_], _, _, cur => .ok cur
+  | x1 :: x2 :: xs, ys, i, cur =>
+    match ys with
+    | y1 :: y2 :: ys' =>
+      if skipped eps x1 y1 x2 y2 then polyLoopXY np sqrt eps x y (x2 :: xs) (y2 :: ys') (i + 1) cur
+      else
+        match projSegmentG np sqrt x1 y1 x2 y2 x y with
+        | .error e => .error (.base e)
+        | .ok r =>
+          let cur' := if better r.1 cur then some (r.1, r.2.1, r.2.2, i) else cur
+          polyLoopXY np sqrt eps x y (x2 :: xs) (y2 :: ys') (i + 1) cur'
+    | _ => .error .index
+
+/-- `proj_polyligne(Xp, Yp, x, y)` on its two sequences (`np`: they are numpy arrays) -/
+def projPolyligneXY (np : Bool) (sqrt : α → α) (eps : α) (X Y : List α) (x y : α) :
+    Except ErrX (α × α × α × Nat) :=
+  match polyLoopXY np sqrt eps x y X Y 0 none with
+  | .error e => .error e
+  | .ok none => .error (.base .unbound)
+  | .ok (some r) => .ok r
+
+/-- `Track.getX()` on a list of positions -/
+def getXs (pts : List (α × α × α)) : List α := pts.map (fun p => p.1)
+/-- `Track.getY()` on a list of positions -/
+def getYs (pts : List (α × α × α)) : List α := pts.map (fun p => p.2.1)
+
+/-- `__projOnTrack(point, track)` on 3D positions: `(ENUCoords(xproj, yproj, 0), distmin, iproj)` -/
+def projOnTrack3 (sqrt : α → α) (eps : α) (pts : List (α × α × α)) (q : α × α × α) :
+    Except ErrX ((α × α × α) × α × Nat) :=
+  match projPolyligneXY false sqrt eps (getXs pts) (getYs pts) q.1 q.2.1 with
+  | .error e => .error e
+  | .ok r => .ok ((r.2.1, r.2.2.1, 0), r.1, r.2.2.2)
+
+/-- the loop of `mapOnTrack(track_of_queries, track)`: one row per query, the first exception aborts -/
+def mapOnTrack3All (sqrt : α → α) (eps : α) (pts : List (α × α × α)) :
+    List (α × α × α) → Except ErrX (List ((α × α × α) × α × Nat))
+  | [] => .ok []
+  | q :: qs =>
+    match projOnTrack3 sqrt eps pts q with
+    | .error e => .error e
+    | .ok r =>
+      match mapOnTrack3All sqrt eps pts qs with
+      | .error e => .error e
+      | .ok rs => .ok (r :: rs)
+
+/-- `mapOnTrack(coord_or_track, track)`: a coordinate gives one `(point, distance, index)`; a track gives the
+positions of the output track with its `dist` / `edge` columns -/
+def mapOnTrack3 (sqrt : α → α) (eps : α) (pts : List (α × α × α)) :
+    (α × α × α) ⊕ List (α × α × α) →
+      Except ErrX (((α × α × α) × α × Nat) ⊕ List ((α × α × α) × α × Nat))
+  | .inl q => (projOnTrack3 sqrt eps pts q).map .inl
+  | .inr qs => (mapOnTrack3All sqrt eps pts qs).map .inr
 
 end
 end TV.Proj
